@@ -55,7 +55,7 @@ def _mk_hooks():
     calls = []
 
     def closed(w, st, market, mb):
-        calls.append((st.idx, market.market_id, mb.status, tuple((r.selection_id, r.status) for r in mb.runners), mb.publish_time_epoch, market.closed, [(o.runner_status, o.market_type, o.each_way_divisor, o.selection_id) for o in market.blotter]))
+        calls.append((st.idx, market.market_id, mb.status, tuple(((r.selection_id, r.handicap), r.status) for r in mb.runners), mb.publish_time_epoch, market.closed, [(o.runner_status, o.market_type, o.each_way_divisor, (o.selection_id, o.handicap)) for o in market.blotter]))
 
     h.closed = closed
     h.calls = calls
@@ -69,9 +69,11 @@ def _one(args):
     for i, seq in enumerate(seqs):
         never_open = bool(seq) and seq[0] == "NEVER"
         letters = [x for x in seq if x != "NEVER"]
+        hcap = mtype == "ASIAN_HANDICAP"
         spec = simx.MarketSpec(
             market_id="1.10000000%d" % (i + 1),
             event_id="30000001",
+            sels=((1, -0.5), (1, 0.5), (2, 0)) if hcap else ((1, 0), (2, 0)),
             market_type=mtype,
             ew=4 if mtype == "EACH_WAY" else None,
             book0=L.BOOK0,
@@ -79,12 +81,17 @@ def _one(args):
             t0=simx.T0 + (i * 37 if event_proc else i * 3600_000),
         )
         ticks = [[200 + 13 * i, LETTERS[x]] for x in letters]
+        if hcap:
+            # the same selection id on two handicap lines finishing differently
+            ticks = [[dt, (["CL", {"1:-0.5": "LOSER", "1:0.5": "WINNER", "2:0": "LOSER"}] if ev[0] == "CL" and ev[1] else ev)] for dt, ev in ticks]
         markets.append((spec, ticks))
     strategies = []
     for k, mk in enumerate(subs):
         script = {}
         if k == 0:
             acts = [L.P("XB"), L.P("PBn"), L.P("X2")][:n_orders]
+            if mtype == "ASIAN_HANDICAP":
+                acts = [L.P("XB", hc=-0.5), L.P("XB", hc=0.5), L.P("X2")][:n_orders]
             if n_clients == 2 and len(acts) > 1:
                 pass
             for mi in mk:
@@ -154,7 +161,7 @@ def _one(args):
                 for (rs, mt, ewd, sel) in c[6]:
                     counts["clause:C20.a"] += 1
                     # every order carries the runner's result as published by THIS closing book
-                    if rs != book_status.get(sel) or mt != mtype or (mtype == "EACH_WAY" and ewd != 4):
+                    if rs != book_status.get(tuple(sel)) or mt != mtype or (mtype == "EACH_WAY" and ewd != 4):
                         out.append(core.v("C20.a", (mode, "-", "settlement field", "-"), "order at closure has runner_status=%r (closing book says %r) market_type=%r each_way_divisor=%r" % (rs, book_status.get(sel), mt, ewd), case))
         # c) cleared reports per episode
         co = [e for e in ev if type(e).__name__ == "ClearedOrdersMetaEvent" and e.event and e.event[0].market_id == mid]
@@ -374,6 +381,10 @@ def run(tier):
     for tail in ([], ["MD"], ["OPN", "U", "CL"], ["OPN", "CL", "MD"]):
         for n_orders in (0, 1):
             jobs.append(((("NEVER",) + tuple(tail),), n_orders, 1, sub_sets[1], False, "WIN"))
+    # handicap market: one selection id on two lines with different results
+    for s in (("U", "CL"), ("U", "CL0", "CL"), ("T", "CL", "MD")):
+        for n_orders in (2, 3):
+            jobs.append(((s,), n_orders, 1, sub_sets[0], False, "ASIAN_HANDICAP"))
     # several markets closing in every order (sequential files and event-grouped), each-way terms
     base = [("U", "CL"), ("U", "U", "CL", "MD"), ("CL", "OPN", "U", "CL")]
     for perm in itertools.permutations(range(3)):
